@@ -263,6 +263,83 @@ Proof.
       try (unfold is_float_lit; destruct fp, ep; reflexivity); try (now rewrite <- !app_assoc).
 Qed.
 
+(** The same at the end of the input. *)
+Theorem lex_number_json_end ip fp ep :
+  int_part ip -> frac_part fp -> exp_part ep ->
+  lex_number (ip ++ fp ++ ep)
+  = LTok (mkTok (if is_float_lit fp ep then TFloat else TInt) (ip ++ fp ++ ep)) [] [].
+Proof.
+  intros Hi Hf He.
+  set (tail := fp ++ ep).
+  assert (Htail : match tail with [] => True | x :: _ => is_digit x = false /\ x <> 120 end).
+  { subst tail. destruct Hf as [->|(l & -> & _ & _)].
+    - destruct He as [->|(e & sg & l & -> & Hee & _)]; [exact I|].
+      cbn [app]. destruct Hee as [->| ->]; split; (reflexivity || discriminate).
+    - cbn [app]. split; [reflexivity|discriminate]. }
+  assert (Hft :
+    (match tail with
+     | 46 :: r1' => let '(d2, r2) := span is_digit r1' in (true, 46 :: d2, r2)
+     | _ => (false, [], tail) end)
+    = (match fp with [] => false | _ => true end, fp, ep)).
+  { subst tail. destruct Hf as [->|(l & -> & Hne & Hl)].
+    - cbn [app]. destruct He as [->|(e & sg & l & -> & Hee & _)]; [reflexivity|].
+      destruct Hee as [->| ->]; reflexivity.
+    - cbn [app].
+      assert (Hs : span is_digit (l ++ ep) = (l, ep)).
+      { destruct He as [->|(e & sg & l3 & -> & Hee & _)].
+        - rewrite app_nil_r. now apply span_ds_nil.
+        - apply span_ds; [exact Hl|]. destruct Hee as [->| ->]; reflexivity. }
+      rewrite Hs. destruct l; [contradiction|reflexivity]. }
+  assert (Hexp :
+    (match ep with
+     | e :: r2' =>
+         if (e =? 101) || (e =? 69) then
+           let '(sg, r2'') :=
+             match r2' with
+             | c :: r2''' => if is_digit c || is_exp_sign c then ([c], r2''') else ([], r2')
+             | [] => ([], [])
+             end in
+           let '(d3, r3) := span is_digit r2'' in (true, e :: sg ++ d3, r3)
+         else (false, [], ep)
+     | [] => (false, [], [])
+     end)
+    = (match ep with [] => false | _ => true end, ep, [])).
+  { destruct He as [->|(e & sg & l & -> & Hee & Hsg & Hne & Hl)]; [reflexivity|].
+    replace ((e =? 101) || (e =? 69)) with true by (destruct Hee as [->| ->]; reflexivity).
+    destruct l as [|c l']; [contradiction|]. inversion Hl as [|? ? Hc Hl']; subst.
+    destruct Hsg as [->|[->| ->]]; cbn [app].
+    - rewrite Hc. cbn [orb]. rewrite (span_ds_nil l' Hl'). reflexivity.
+    - cbn [is_digit in_range N.leb N.compare Pos.compare Pos.compare_cont andb orb is_exp_sign exp_signs existsb N.eqb Pos.eqb].
+      rewrite (span_ds_nil (c :: l') Hl). reflexivity.
+    - cbn [is_digit in_range N.leb N.compare Pos.compare Pos.compare_cont andb orb is_exp_sign exp_signs existsb N.eqb Pos.eqb].
+      rewrite (span_ds_nil (c :: l') Hl). reflexivity. }
+  assert (Hs0 : span is_digit tail = ([], tail)).
+  { destruct tail as [|x r]; [reflexivity|]. cbn [span]. now rewrite (proj1 Htail). }
+  assert (Hsl : forall l, ds l -> span is_digit (l ++ tail) = (l, tail)).
+  { intros l Hl. destruct tail as [|x r]; [rewrite app_nil_r; now apply span_ds_nil|].
+    apply span_ds; [exact Hl|exact (proj1 Htail)]. }
+  assert (Hnohex : forall b : bool,
+            match tail with 120 :: r2 => if b then Some r2 else None | _ => None end = None).
+  { intros b. destruct tail as [|x r]; [reflexivity|]. destruct Htail as [_ Hx].
+    destruct x as [|p]; [reflexivity|]. repeat (destruct p as [p|p|]; try reflexivity). contradiction. }
+  assert (Etl : tail = fp ++ ep) by reflexivity.
+  change (lex_number (ip ++ fp ++ ep)) with (lex_number (ip ++ tail)). clearbody tail. unfold lex_number.
+  destruct Hi as [->|(c & l & -> & Hc & Hc48 & Hl)].
+  - cbn [app is_digit in_range N.leb N.compare Pos.compare Pos.compare_cont andb negb].
+    rewrite Hnohex, Hs0. cbv beta iota zeta. rewrite Hft. cbv beta iota zeta.
+    rewrite Hexp. cbv beta iota zeta.
+    cbn [app]. f_equal. f_equal;
+      try (unfold is_float_lit; destruct fp, ep; reflexivity); try (now rewrite Etl).
+  - cbn [app]. rewrite Hc. cbn [negb].
+    assert (Hnohex2 : match l ++ tail with 120 :: r2 => if c =? 48 then Some r2 else None | _ => None end = None).
+    { destruct (N.eqb_spec c 48); [contradiction|]. destruct (l ++ tail) as [|y ?]; [reflexivity|].
+      destruct y as [|p]; [reflexivity|]. repeat (destruct p as [p|p|]; try reflexivity). }
+    rewrite Hnohex2, (Hsl l Hl). cbv beta iota zeta. rewrite Hft. cbv beta iota zeta.
+    rewrite Hexp. cbv beta iota zeta.
+    f_equal. f_equal;
+      try (unfold is_float_lit; destruct fp, ep; reflexivity); try (rewrite Etl; now rewrite <- ?app_assoc).
+Qed.
+
 (** ** A canonical decimal integer is re-emitted digit for digit *)
 
 Definition canon_le (m : list N) : Prop :=
